@@ -313,6 +313,8 @@ class BaseModel(SolverMixin, ModelInterface):
                     f'in period with label: {self.span[t]} (index: {t})'
                 ) from e
 
+        iteration = 0  # No passes yet (also the value recorded if `max_iter` is zero)
+
         for iteration in range(1, max_iter + 1):
             previous_values = current_values.copy()
 
